@@ -5,7 +5,11 @@
    of this iteration (each entry carries, as ghost data, the set the priority was reported for), n = the
    number of provider events consumed so far (the next event is the choose_version of this decision).
    That the package asked about has a maximal priority in q is checked by the model on every replayed run
-   (outcome OPickNotMax otherwise): which maximal element the Rust PriorityQueue pops is not modelled.
+   (outcome OPickNotMax otherwise).  Which maximal element the Rust PriorityQueue pops was an adversarial
+   parameter read from the recording; since the third session the heap of the priority-queue crate is modelled
+   exactly (Model/Heap.v, [resolve_h]) and [exact_queue_pick_is_maximal] proves that the package this heap pops
+   always has maximal queue priority: "pop returns a maximum" is now a theorem about the modelled heap
+   ([exact_queue_pop_is_max]) tied to the crate by a differential test, no longer an assumption.
 
    Proved here for every lawful VersionSet, ANY fuel and ANY trace whose dependency answers carry well-formed
    sets (in particular every trace that agrees with a well-formed registry):
@@ -22,7 +26,7 @@ From Coq Require Import List NArith Bool.
 From Coq Require Import ZArith.
 From PG Require Import Model.VS Model.Term Model.Solver Model.Registry Proofs.VSLaws Proofs.SolverSem Proofs.SolverQueue Proofs.SolverQueue2.
 From Coq Require Import ZArith.
-From PG Require Import Model.Instances Proofs.SolverExamples.
+From PG Require Import Model.Instances Proofs.SolverExamples Model.Heap Proofs.HeapProofs Proofs.SolverDetInst.
 Import ListNotations.
 
 Section C14.
@@ -57,7 +61,16 @@ Section C14.
     - unfold pos_set in Hs. destruct (ai a) as [|[s0|]]; try discriminate. now injection Hs as ->.
     - unfold pos_set. now rewrite Hs.
   Qed.
+
+  (* with the priority queue modelled exactly, the model never has to reject a pick as non-maximal *)
+  Theorem exact_queue_pick_is_maximal : forall fuel r v (tr : list event) k p,
+    fst (fst (fst (resolve_h O veqb fuel r v tr))) <> OPickNotMax k p.
+  Proof. exact (resolve_h_pick_is_max O veqb). Qed.
 End C14.
+
+Theorem exact_queue_pop_is_max : forall (h : heap (I := N)) e h',
+  heap_ord h -> heap_pop h = Some (e, h') -> forall x, In x h -> (snd x <= snd e)%Z.
+Proof. exact (@heap_pop_max N). Qed.
 
 Section C14_semantic.
   Context {VS Vr : Type} (O : VSOps VS Vr) (L : VSLawful O) (veqb : Vr -> Vr -> bool).
@@ -103,3 +116,5 @@ Print Assumptions undecided_positive_reported.
 Print Assumptions chosen_package_is_maximal.
 Print Assumptions queue_max_is_upper_bound.
 Print Assumptions wellbehaved_traces_are_wf.
+Print Assumptions exact_queue_pick_is_maximal.
+Print Assumptions exact_queue_pop_is_max.
